@@ -170,6 +170,16 @@ PROPS = {
             dict(name="TestTypedChain", quick=3000, thorough=30000, shards_thorough=6),
         ],
     ),
+    "C18": dict(
+        pkg="c18", level="exploration",
+        technique="model-based property testing (rapid): generated state-protocol message sequences vs a last-writer-wins fold, metamorphic split into two replay sessions",
+        level_text="Random search over message sequences (all operations, several entity types incl. an unregistered one and one containing the key separator, keys containing the separator, strict and non-strict) compared with a reference fold after one session and after two sessions resumed from LastOffset.",
+        level_note="Collections use separate stores (the documented usage); callbacks are counted, not timed.",
+        assumptions=COMMON_ASSUME,
+        tests=[
+            dict(name="TestFold", quick=5000, thorough=60000, shards_thorough=16),
+        ],
+    ),
 }
 
 HOOK_COMMITS = ["99604d0"]
